@@ -107,3 +107,24 @@ def del_subscript(ex, o, i):
 if M.store_subscript.__module__ != __name__:
     M.store_subscript = store_subscript
     M.del_subscript = del_subscript
+
+
+# ---------------------------------------------------------------------------
+# call_code(fn, *args): a ghost effect hands control back to the code under contract (a recorded
+# `future.add_done_callback(cb)` that runs `cb` as the event loop would).  Natively a plain call; symbolically the
+# callee is executed as *code* (its asserts raise, and/or short-circuit, exceptions fork), not as ghost code.
+# ---------------------------------------------------------------------------
+def call_code(fn, *args):
+    return fn(*args)
+
+
+def _m_call_code(ex, fn, *args):
+    saved = ex.spec_mode
+    ex.spec_mode = 0
+    try:
+        return ex.call(fn, list(args), {}, None)
+    finally:
+        ex.spec_mode = saved
+
+
+MC.NATIVE_MODELS[call_code] = _m_call_code
